@@ -36,6 +36,18 @@ Proof.
   - destruct (Z.eqb_spec x c); [contradiction|]. rewrite IH. reflexivity.
 Qed.
 
+Lemma skipn_S_app {A} (a : list A) c x : skipn (S (length a)) (a ++ c :: x) = x.
+Proof. induction a as [|y a IH]; [reflexivity|exact IH]. Qed.
+
+Lemma firstn_app_exact {A} (a b : list A) : firstn (length a) (a ++ b) = a.
+Proof. induction a as [|y a IH]; [reflexivity|]. cbn [length app firstn]. rewrite IH. reflexivity. Qed.
+
+Lemma firstn_S_app {A} (a : list A) c x : firstn (S (length a)) (a ++ c :: x) = a ++ [c].
+Proof. induction a as [|y a IH]; [reflexivity|]. cbn [length app]. rewrite firstn_cons, IH. reflexivity. Qed.
+
+Lemma skipn_SS_app {A} (a : list A) c d x : skipn (S (S (length a))) (a ++ c :: d :: x) = x.
+Proof. induction a as [|y a IH]; [reflexivity|exact IH]. Qed.
+
 Lemma len_app (a b : str) : len (a ++ b) = len a + len b.
 Proof. unfold len. rewrite app_length. lia. Qed.
 
@@ -279,23 +291,15 @@ Theorem parse_format_record id text rest msg :
 Proof.
   intros Hid. unfold format_record. destruct (is_valid_record_text text) eqn:Hv; [|discriminate].
   intros [= <-]. destruct (valid_text_bytes text Hv) as [t [Et Hn]].
-  unfold parse_record. rewrite <- !app_assoc. cbn [app].
-  rewrite index_of_app_notin by apply format_int_no10.
-  rewrite firstn_app, Nat.sub_diag, firstn_all. cbn [firstn]. rewrite app_nil_r.
-  rewrite parse_format_int by exact Hid.
-  replace (skipn (S (length (format_int id))) (format_int id ++ 10 :: text ++ 10 :: rest))
-    with (text ++ 10 :: rest).
-  2:{ change (S (length (format_int id))) with (1 + length (format_int id))%nat.
-      rewrite Nat.add_comm, <- skipn_skipn_plus. rewrite skipn_app, skipn_all, Nat.sub_diag. reflexivity. }
-  rewrite Et in Hn |- *. rewrite <- app_assoc. cbn [app].
-  rewrite (index_nn_spec t rest 0 Hn).
-  replace (firstn (S (length t)) (t ++ 10 :: 10 :: rest)) with (t ++ [10]).
-  2:{ replace (t ++ 10 :: 10 :: rest) with ((t ++ [10]) ++ 10 :: rest) by (rewrite <- app_assoc; reflexivity).
-      rewrite firstn_app. replace (S (length t)) with (length (t ++ [10])) by (rewrite app_length; cbn; lia).
-      rewrite firstn_all, Nat.sub_diag. cbn [firstn]. rewrite app_nil_r. reflexivity. }
-  replace (skipn (S (S (length t))) (t ++ 10 :: 10 :: rest)) with rest.
-  2:{ replace (t ++ 10 :: 10 :: rest) with ((t ++ [10; 10]) ++ rest) by (rewrite <- app_assoc; reflexivity).
-      rewrite skipn_app. replace (S (S (length t))) with (length (t ++ [10; 10])) by (rewrite app_length; cbn; lia).
-      rewrite skipn_all, Nat.sub_diag. reflexivity. }
-  rewrite <- Et, Hv. reflexivity.
+  unfold parse_record.
+  set (fi := format_int id).
+  assert (E0 : (fi ++ 10 :: text ++ [10]) ++ rest = fi ++ 10 :: (text ++ 10 :: rest))
+    by (rewrite <- !app_assoc; cbn [app]; rewrite <- app_assoc; reflexivity).
+  rewrite E0. rewrite index_of_app_notin by apply format_int_no10.
+  rewrite firstn_app_exact. unfold fi at 1. rewrite parse_format_int by exact Hid.
+  rewrite skipn_S_app. cbv zeta.
+  assert (E1 : text ++ 10 :: rest = t ++ 10 :: 10 :: rest)
+    by (rewrite Et, <- app_assoc; reflexivity).
+  rewrite E1. rewrite Et in Hn. rewrite (index_nn_spec t rest 0 Hn).
+  rewrite firstn_S_app, skipn_SS_app, <- Et, Hv. reflexivity.
 Qed.
